@@ -120,7 +120,7 @@ def obj_attr(ex, obj: ObjV, attr, node):
 def num_attr(ex, v: Num, attr, node):
     if attr == "shape":
         if v.shape is None:
-            return OpaqueV(f"shape({valkey(v)})")
+            return OpaqueV(f"shape({valkey(v)})", {"kind": "shape", "of": v})
         return TupleV([Num(d, (), "int", meta={"kind": "COUNT"}) for d in v.shape])
     if attr == "ndim":
         if v.shape is None:
@@ -734,6 +734,10 @@ def _len(ex, args, kwargs, node):
         return r
     if isinstance(v, StrV):
         return Num(NF.const(len(v.s)) if v.s is not None else app("len", v.key), (), "int")
+    if isinstance(v, OpaqueV) and v.meta.get("kind") == "shape" and isinstance(v.meta.get("of"), Num) and v.meta["of"].nf is not None:
+        return Num(app("ndim", v.meta["of"].nf), (), "int")  # len(x.shape) is x.ndim
+    if isinstance(v, OpaqueV) and v.meta.get("kind") == "rawshape":
+        return Num(app("ndim", v.meta["of"].key), (), "int")
     if isinstance(v, RangeV):
         return Num(app("rangelen", v.lo.nf, v.hi.nf, v.step.nf), (), "int")
     if isinstance(v, DictV):
